@@ -9,15 +9,15 @@
 #include <libxml/xmlwriter.h>
 
 struct VAttr { const char* name; std::string value; };
-struct VNode { int type; const char* name; bool empty; std::vector<VAttr> attrs; std::string text; };   // type: 1 element, 15 end element, 3 text
+struct VNode { int type; const char* name; bool empty; std::vector<VAttr> attrs; std::string text; bool cdata = false; };   // type: 1 element, 15 end element, 3 text (cdata: written as a <![CDATA[ ]]> section)
 struct XmlDoc {
     std::vector<VNode> nodes;
     std::vector<const char*> open;
     XmlDoc& el(const char* n, std::vector<VAttr> a = {}) { nodes.push_back(VNode{1, n, false, std::move(a), ""}); open.push_back(n); return *this; }
     XmlDoc& empty(const char* n, std::vector<VAttr> a = {}) { nodes.push_back(VNode{1, n, true, std::move(a), ""}); return *this; }
-    XmlDoc& text(const std::string& t) { if (!t.empty()) nodes.push_back(VNode{3, "#text", false, {}, t}); return *this; }
+    XmlDoc& text(const std::string& t, bool cdata = false) { if (!t.empty()) nodes.push_back(VNode{3, "#text", false, {}, t, cdata}); return *this; }
     XmlDoc& end() { nodes.push_back(VNode{15, open.back(), false, {}, ""}); open.pop_back(); return *this; }
-    XmlDoc& leaf(const char* n, const std::string& t, std::vector<VAttr> a = {}) { el(n, std::move(a)); text(t); return end(); }
+    XmlDoc& leaf(const char* n, const std::string& t, std::vector<VAttr> a = {}, bool cdata = false) { el(n, std::move(a)); text(t, cdata); return end(); }
     static std::string esc(const std::string& s)
     {
         std::string o;
@@ -28,7 +28,7 @@ struct XmlDoc {
     {
         std::string o = "<?xml version=\"1.0\" encoding=\"utf-8\"?>";
         for (auto& n : nodes) {
-            if (n.type == 3) o += esc(n.text);
+            if (n.type == 3) o += n.cdata ? "<![CDATA[" + n.text + "]]>" : esc(n.text);
             else if (n.type == 15) o += std::string("</") + n.name + ">";
             else { o += std::string("<") + n.name; for (auto& a : n.attrs) o += std::string(" ") + a.name + "=\"" + esc(a.value) + "\""; o += n.empty ? "/>" : ">"; }
         }
@@ -45,7 +45,8 @@ static void vf_xml_free(void* p) { free(p); }
 xmlFreeFunc xmlFree = vf_xml_free;
 static char* vf_xml_dup(const std::string& s) { char* r = (char*)malloc(s.size() + 1); memcpy(r, s.c_str(), s.size() + 1); return r; }
 extern "C" {
-xmlTextReaderPtr xmlReaderForMemory(const char*, int, const char*, const char*, int) { vf_xml_cur = -1; return (xmlTextReaderPtr)vf_xml_doc; }
+static int vf_xml_options = 0;   // the parser options the code under test asks for: XML_PARSE_NOCDATA turns CDATA sections into text nodes
+xmlTextReaderPtr xmlReaderForMemory(const char*, int, const char*, const char*, int options) { vf_xml_cur = -1; vf_xml_options = options; return (xmlTextReaderPtr)vf_xml_doc; }
 void xmlFreeTextReader(xmlTextReaderPtr) {}
 int xmlTextReaderRead(xmlTextReaderPtr)
 {
@@ -55,7 +56,13 @@ int xmlTextReaderRead(xmlTextReaderPtr)
     vf_xml_cur++;
     return 1;
 }
-int xmlTextReaderNodeType(xmlTextReaderPtr) { return vf_xml_cur < 0 ? 0 : vf_xml_doc->nodes[vf_xml_cur].type; }
+int xmlTextReaderNodeType(xmlTextReaderPtr)
+{
+    if (vf_xml_cur < 0) return 0;
+    const VNode& n = vf_xml_doc->nodes[vf_xml_cur];
+    if (n.type == 3 && n.cdata && !(vf_xml_options & XML_PARSE_NOCDATA)) return 4;   // XML_READER_TYPE_CDATA
+    return n.type;
+}
 const xmlChar* xmlTextReaderConstLocalName(xmlTextReaderPtr) { return (const xmlChar*)(vf_xml_cur < 0 ? "" : vf_xml_doc->nodes[vf_xml_cur].name); }
 int xmlTextReaderIsEmptyElement(xmlTextReaderPtr) { return vf_xml_cur < 0 ? 0 : (vf_xml_doc->nodes[vf_xml_cur].empty ? 1 : 0); }
 const xmlChar* xmlTextReaderConstValue(xmlTextReaderPtr) { return (vf_xml_cur < 0 || vf_xml_doc->nodes[vf_xml_cur].type != 3) ? nullptr : (const xmlChar*)vf_xml_doc->nodes[vf_xml_cur].text.c_str(); }
@@ -103,22 +110,24 @@ static inline std::string loc_name(const MLoc& l) { return l.name.empty() ? "_" 
 static inline bool edge_control(const MEdge& e) { return e.ctrl != 2; }
 // white space around the identifier inside <name> elements (hand-formatted or pretty-printed XML); the reader must trim it
 static std::string xml_name_pad_left, xml_name_pad_right;
+// which text blocks are written as CDATA sections instead of escaped text: 1 labels, 2 declarations / parameters / system
+static int xml_cdata_mask = 0;
 static inline XmlDoc render_xml(const MModel& m)
 {
     auto padded = [&](const std::string& n) { return xml_name_pad_left + n + xml_name_pad_right; };
     XmlDoc d;
     d.el("nta");
-    d.leaf("declaration", m.gdecl);
+    d.leaf("declaration", m.gdecl, {}, xml_cdata_mask & 2);
     for (auto& t : m.templs) {
         d.el("template");
         d.leaf("name", padded(t.name));
-        if (!t.params.empty()) d.leaf("parameter", t.params);
-        d.leaf("declaration", t.decls);
+        if (!t.params.empty()) d.leaf("parameter", t.params, {}, xml_cdata_mask & 2);
+        d.leaf("declaration", t.decls, {}, xml_cdata_mask & 2);
         for (auto& l : t.locs) {
             d.el("location", {{"id", l.id}});
             if (!l.name.empty()) d.leaf("name", padded(l.name));
-            if (!l.inv.empty()) d.leaf("label", l.inv, {{"kind", "invariant"}});
-            if (!l.rate.empty()) d.leaf("label", l.rate, {{"kind", "exponentialrate"}});
+            if (!l.inv.empty()) d.leaf("label", l.inv, {{"kind", "invariant"}}, xml_cdata_mask & 1);
+            if (!l.rate.empty()) d.leaf("label", l.rate, {{"kind", "exponentialrate"}}, xml_cdata_mask & 1);
             if (l.urgent) d.empty("urgent");
             if (l.committed) d.empty("committed");
             d.end();
@@ -131,16 +140,16 @@ static inline XmlDoc render_xml(const MModel& m)
             d.el("transition", a);
             d.empty("source", {{"ref", e.src_bp ? t.bps[e.src] : t.locs[e.src].id}});
             d.empty("target", {{"ref", !e.dst_ref_override.empty() ? e.dst_ref_override : e.dst_bp ? t.bps[e.dst] : t.locs[e.dst].id}});
-            if (!e.select.empty()) d.leaf("label", e.select, {{"kind", "select"}});
-            if (!e.guard.empty()) d.leaf("label", e.guard, {{"kind", "guard"}});
-            if (!e.sync.empty()) d.leaf("label", e.sync, {{"kind", "synchronisation"}});
-            if (!e.assign.empty()) d.leaf("label", e.assign, {{"kind", "assignment"}});
-            if (!e.prob.empty()) d.leaf("label", e.prob, {{"kind", "probability"}});
+            if (!e.select.empty()) d.leaf("label", e.select, {{"kind", "select"}}, xml_cdata_mask & 1);
+            if (!e.guard.empty()) d.leaf("label", e.guard, {{"kind", "guard"}}, xml_cdata_mask & 1);
+            if (!e.sync.empty()) d.leaf("label", e.sync, {{"kind", "synchronisation"}}, xml_cdata_mask & 1);
+            if (!e.assign.empty()) d.leaf("label", e.assign, {{"kind", "assignment"}}, xml_cdata_mask & 1);
+            if (!e.prob.empty()) d.leaf("label", e.prob, {{"kind", "probability"}}, xml_cdata_mask & 1);
             d.end();
         }
         d.end();
     }
-    d.leaf("system", m.system);
+    d.leaf("system", m.system, {}, xml_cdata_mask & 2);
     d.end();
     return d;
 }
